@@ -213,6 +213,7 @@ pub fn exec(sc: &Scenario) -> Outcome {
     if let Err(e) = h.boot(&sc.cfg, "a") { return Outcome { verdict: "harness".into(), note: e, ..Default::default() }; }
     let mut generation = 0u32;
     crate::world::g().disk_write_latency_ns = sc.knob("disk_write_latency_us", 0) as u64 * 1000;
+    if sc.knob("disk_write_latency_us", 0) > 0 { h.count("fault_slow_disk_runs", 1); }
     for (i, st) in sc.steps.iter().enumerate() {
         h.step_no = i;
         if h.dead.is_some() { break; }
